@@ -467,7 +467,7 @@ impl Engine for DirectiveEngine {
                     }
                 }
             }
-            return json!({"engine": "directive", "prop": g.prop, "mode": g.mode, "cfg": {"dirs": dirs, "threads": 2, "global": global}, "steps": st, "sched": serde_json::to_value(&sched).unwrap(), "hang_is_violation": global});
+            return json!({"engine": "directive", "prop": g.prop, "mode": g.mode, "cfg": {"dirs": dirs, "threads": 2, "global": global}, "steps": st, "sched": serde_json::to_value(&sched).unwrap()});
         }
         let sched = Sched::op_order(rng.next_u64());
         json!({"engine": "directive", "prop": g.prop, "mode": g.mode, "cfg": {"dirs": dirs, "threads": nthreads}, "steps": steps, "sched": serde_json::to_value(&sched).unwrap()})
